@@ -170,6 +170,7 @@ impl Oplog {
                         get_slices_checked(&existing, OplogSlot::Entries as usize)?.1;
                     let mut entries: Vec<Entry> = Vec::new();
                     let mut partials: Vec<bool> = Vec::new();
+                    let mut byte_lengths: Vec<u64> = Vec::new();
                     let header_bit = outcome.oplog.get_current_header_bit();
                     while let Some(entry_outcome) = Self::validate_leader(entries_buff)? {
                         if entry_outcome.header_bit != header_bit {
@@ -178,18 +179,32 @@ impl Oplog {
                             break;
                         }
                         let res = Entry::decode(entry_outcome.state)?;
-                        // New entries must be appended after the ones that are replayed
-                        outcome.oplog.entries_length += 1;
-                        outcome.oplog.entries_byte_length +=
-                            (entries_buff.len() - res.1.len()) as u64;
+                        byte_lengths.push((entries_buff.len() - res.1.len()) as u64);
                         entries.push(res.0);
                         entries_buff = res.1;
                         partials.push(entry_outcome.partial_bit);
                     }
 
-                    // Remove all trailing partial entries
-                    while !partials.is_empty() && partials[partials.len() - 1] {
+                    // Remove all trailing partial entries: they belong to an atomic batch
+                    // whose last entry was never written.
+                    let mut removed_partial_entries = false;
+                    while partials.last() == Some(&true) {
                         entries.pop();
+                        partials.pop();
+                        byte_lengths.pop();
+                        removed_partial_entries = true;
+                    }
+                    // New entries must be appended after the ones that are replayed
+                    outcome.oplog.entries_length = entries.len() as u64;
+                    outcome.oplog.entries_byte_length = byte_lengths.iter().sum();
+                    if removed_partial_entries {
+                        // Cut the unfinished batch off so that it can never be completed
+                        // by an unrelated entry written later.
+                        outcome.infos_to_flush = vec![StoreInfo::new_truncate(
+                            Store::Oplog,
+                            OplogSlot::Entries as u64 + outcome.oplog.entries_byte_length,
+                        )]
+                        .into_boxed_slice();
                     }
                     outcome.entries = Some(entries.into_boxed_slice());
                 }
